@@ -427,7 +427,7 @@ func (p *PropRun) writeReplay(o *Obligation) string {
 	os.MkdirAll(dir, 0o755)
 	path := filepath.Join(dir, sanitize(o.Name)+".txt")
 	var sb strings.Builder
-	fmt.Fprintf(&sb, "property: %s\nobligation: %s\nkind: %s\nfunction: %s\nposition: %s\nstatus: %s (solver %s, %.2fs)\nclause: %s\n", p.Prop, o.Name, o.Kind, o.Fn, o.Pos, o.Status, o.Solver, o.Time, o.Src)
+	fmt.Fprintf(&sb, "property: %s\nobligation: %s\nkind: %s\nfunction: %s\nposition: %s\nstatus: %s (solver %s, %.2fs, limit %ds per stage)\nclause: %s\n", p.Prop, o.Name, o.Kind, o.Fn, o.Pos, o.Status, o.Solver, o.Time, o.limit, o.Src)
 	if o.replayNote != "" {
 		fmt.Fprintf(&sb, "replay: %s\n", o.replayNote)
 	}
